@@ -249,7 +249,7 @@ int cp_rabin_dec(uint8_t *out, size_t *out_len, const uint8_t *in,
 				}
 			}
 
-			if (size <= *out_len) {
+			if (result == RLC_OK && size <= *out_len) {
 				*out_len = size;
 				memset(out, 0, size);
 				bn_write_bin(out, size, m);
